@@ -347,6 +347,10 @@ func emitType(b *strings.Builder, p *sdl.Program, t *sdl.Type) {
 	for _, pt := range t.Points {
 		c := getCarrier(pt.Embed)
 		decl := fmt.Sprintf("%s %s `%s`", pt.GoName(), PointGoType(p, pt), TagOf(pt))
+		if pt.Anon {
+			// an embedded interface that carries the tag itself: a field like any other
+			decl = fmt.Sprintf("%s `%s`", PointGoType(p, pt), TagOf(pt))
+		}
 		dup := false
 		for _, f := range c.fields {
 			if f == decl {
